@@ -93,6 +93,14 @@ func (th *Thread) binop(op token.Token, t types.Type, x, y Value) Value {
 	case *Term:
 		yv := y.(*Term)
 		_, signed, _ := widthOf(t)
+		if xv.W == IntW || yv.W == IntW {
+			switch op {
+			case token.ADD, token.SUB, token.MUL, token.QUO, token.REM, token.LSS, token.LEQ, token.GTR, token.GEQ:
+				signed = true
+			default:
+				xv, yv = ToBV(xv, 64), ToBV(yv, 64)
+			}
+		}
 		switch op {
 		case token.ADD:
 			return Bin(OpAdd, xv, yv)
